@@ -186,9 +186,13 @@ CLAIMED = {
               "Cell cards: cellcard.split modelled character by character (compared with the code on the contents of "
               "generated, restyled and mutated cards) returns number, material, density, geometry and options as written, "
               "for every spelling of the numbers, void cells with any spelling of zero, LIKE n BUT in any letter case "
-              "(cell_card_split_material / _void / _like). "
-              "Not proved: letter case of keywords and mnemonics (lower-casing is done per parser) and the surface/data "
-              "card split regexes — restyling differential only."),
+              "(cell_card_split_material / _void / _like). Surface and data cards: surfacecard.split and "
+              "datacard.split modelled and compared likewise; [*+]n [±t] mnemonic parameters and type-number-rest come "
+              "back as written (surface_card_split, surface_card_split_tr, data_card_split). Keywords: the option "
+              "tokeniser is proved insensitive to letter case (keyword_case_immaterial) and str.split to return the "
+              "words (split_returns_the_words). "
+              "Not proved: letter case of surface mnemonics and data-card names (one .lower() per reader) — restyling "
+              "differential only."),
         design_ref='§8 C14'),
     'C15': dict(
         technique='Lean 4 proof (fold invariant of parse_keywords: the later keyword wins; induction over LIKE chains) + model↔code correspondence on option token lists + differential conversion of LIKE decks against their expansion',
@@ -203,7 +207,11 @@ CLAIMED = {
               "with the code on random option lists; every generated LIKE deck is converted as written and expanded, "
               "and the outputs must be identical. The token-level reading is a state machine over "
               "the option tokens and is proved to commute with apply_but whenever the BUT options begin with a keyword "
-              "(grouping_commutes_with_but, like_but_tokens). The array form of FILL is outside the model."),
+              "(grouping_commutes_with_but, like_but_tokens). From text to tokens: the tokeniser of the options "
+              "(colons squeezed, lower-cased, ( ) = turned into blanks, split; char-level model compared with the code "
+              "on the option texts of generated and restyled decks) maps 'options of cell n, blank, BUT options' to the "
+              "tokens of the one followed by the tokens of the other (apply_but_on_text). The array form of FILL is "
+              "outside the model."),
         design_ref='§8 C15'),
     'C16': dict(
         technique='Lean 4 proof (decision logic of the boundary-condition writer on the model) + model↔code correspondence + locus check of the designated surface in the written file',
@@ -211,7 +219,11 @@ CLAIMED = {
               "in order, with the kind of its flag, none for unflagged ones (entries_partial, one_entry_per_flagged); a "
               "flag on a macrobody is rejected (macrobody_flag_rejected). The model is compared with the code on every "
               "generated deck, and the surface designated in the written BOUNDARY_CONDITION block is checked to have the "
-              "same locus as the flagged MCNP surface (after de-duplication, transformation, one-sheet cones). Open "
+              "same locus as the flagged MCNP surface (after de-duplication, transformation, one-sheet cones); a cell "
+              "bounded by flagged faces and its LIKE n BUT TRCL copy must give one entry per face and place. The "
+              "designation clause is characterised on the model: the entries designate written surfaces exactly when "
+              "every flagged surface is itself written (designates_iff_flagged_written_partial), which the code does not "
+              "ensure (designation_fails_when_a_flagged_surface_is_not_written, a concrete witness = findings F2a/F2b). Open "
               "findings F2a/F2b/F22 are listed in known_findings.json."),
         design_ref='§8 C16'),
     'C07': dict(
@@ -275,7 +287,9 @@ CLAIMED = {
               "score and the --always-inline flags cannot change meaning); the conversion loop theorem of C01 holds for "
               "every resulting tree. Each generated deck is converted under several option sets and every output is "
               "checked point-wise against the one MCNP reference; the de-duplication/post-processing model is compared "
-              "with the code."),
+              "with the code. De-duplication further: every surface gets a representative "
+              "(dedup_every_surface_has_representative), no two surviving surfaces have the same definition "
+              "(dedup_survivors_pairwise_different), the lowest number of a group survives (dedup_lowest_number_survives)."),
         design_ref='§8 C13'),
     'C17': dict(
         technique='Lean 4 proof (decision logic stated outright on the model) + fault injection on the real converter',
